@@ -1,0 +1,62 @@
+//! Verification hook (only compiled with `--cfg anydb_verif`): lock tap for the vecdb locks
+//! (compressed page index `pages`, vector `header`, `CachedVec` `cache`, `Exit` `exit`).
+//! A tap reports "about to acquire (class, instance, mode)" through `rawdb::verif_tap`, the
+//! instance being the address of the lock, and remembers a weak probe of the lock so that the
+//! harness can ask which of the tapped locks are currently held.  Disabled (one relaxed atomic
+//! load per tap) until the harness calls `enable(true)`; nothing here changes behaviour.
+use std::sync::{
+    Arc, Mutex, Weak,
+    atomic::{AtomicBool, Ordering},
+};
+
+use parking_lot::RwLock;
+
+type Probe = Box<dyn Fn() -> Option<u8> + Send + Sync>;
+
+static ENABLED: AtomicBool = AtomicBool::new(false);
+static REGISTRY: Mutex<Vec<(&'static str, usize, Probe)>> = Mutex::new(Vec::new());
+
+pub fn enable(on: bool) {
+    ENABLED.store(on, Ordering::Relaxed);
+}
+
+#[inline]
+pub fn tap<T: Send + Sync + 'static>(class: &'static str, lock: &Arc<RwLock<T>>, write: bool) {
+    if !ENABLED.load(Ordering::Relaxed) {
+        return;
+    }
+    let id = Arc::as_ptr(lock) as *const () as usize;
+    {
+        let mut reg = REGISTRY.lock().unwrap();
+        // forget freed locks (their address may be reused)
+        reg.retain(|(_, _, p)| p().is_some());
+        if !reg.iter().any(|(c, i, _)| *c == class && *i == id) {
+            let w: Weak<RwLock<T>> = Arc::downgrade(lock);
+            reg.push((
+                class,
+                id,
+                Box::new(move || {
+                    w.upgrade().map(|l| {
+                        if l.is_locked_exclusive() {
+                            2
+                        } else if l.is_locked() {
+                            1
+                        } else {
+                            0
+                        }
+                    })
+                }),
+            ));
+        }
+    }
+    rawdb::verif_tap::lock(class, id, write);
+}
+
+/// (class, instance, state) of every tapped lock that is still alive:
+/// 0 = free, 1 = shared, 2 = exclusive.
+pub fn lock_states() -> Vec<(&'static str, usize, u8)> {
+    let reg = REGISTRY.lock().unwrap();
+    reg.iter()
+        .filter_map(|(c, i, p)| p().map(|s| (*c, *i, s)))
+        .collect()
+}
